@@ -52,6 +52,7 @@ pub fn run(ctx: &mut Ctx, suite: &str) {
         "c20w" => c04::run_c20w(ctx),
         "c01l" => c04::run_c01l(ctx),
         "c01n" => c04::run_c01n(ctx),
+        "c04e" => c04::run_c04e(ctx),
         "c08s" => c12::run_stall(ctx),
         "c19" => c19::run(ctx),
         "c20" => c20::run(ctx),
